@@ -367,7 +367,9 @@ func genReq(g *rng.R) req {
 		return req{Method: m, CT: ct, Body: body, Query: rng.Pick(g, []string{"", "level=debug"}), Intent: "othermethod", Desc: m + " with a valid-looking level"}
 	case 12: // don't-care zones: judged by the invariants only
 		n, _ := validName()
-		body := rng.Pick(g, []string{`{"level":""}`, `{"level":"` + n + `"} trailing`, `{"level":"` + n + `"}{"level":"fatal"}`, `{"LEVEL":"` + n + `"}`, `{"level":"error","level":"` + n + `"}`})
+		body := rng.Pick(g, []string{`{"level":""}`, `{"level":"` + n + `"} trailing`, `{"level":"` + n + `"}{"level":"fatal"}`, `{"LEVEL":"` + n + `"}`, `{"level":"error","level":"` + n + `"}`,
+			// a repeated key whose first value is valid and whose later value is not: whatever the answer, a 4xx must leave the level alone
+			`{"level":"` + n + `","level":"nope"}`, `{"level":"` + n + `","level":7}`, `{"level":"` + n + `","LEVEL":"bogus"}`, `{"Level":"` + n + `","level":null,"level":[1]}`, `{"level":"` + n + `","level":"` + n + `x"}`, `{"level":"` + n + `","level":{}}`})
 		return req{Method: "PUT", CT: jsonCT(), Body: body, Intent: "none", Desc: "PUT json don't-care: " + body}
 	case 13:
 		n, _ := validName()
